@@ -103,6 +103,11 @@ def run(chk, tier, proof_ok):
     extra = _setter_and_annealer(chk)
     full = tier == 'thorough' or not proof_ok or bool(divs) or bool(errs) or bool(extra)
     findings, st = realsearch.ladder_findings(chk.seed * 29 + 6, full=full)
+    # adapted ladders that are no longer monotone (finite hottest temperature), saved and loaded: the
+    # ladder array must come back as it was saved and equal the levels' betas
+    lf, nl = realsearch.ladder_state_roundtrip_findings(chk.seed * 41 + 5, 40 if full else 8)
+    findings = findings + [f for f in lf if f[0] in ('state-roundtrip-ladder-incoherent', 'state-roundtrip-ladder-raises')]
+    st['nonmonotone_ladder_roundtrips'] = nl
     chk.coverage['search'] = dict(st, oracle='ptchain.betas == [level.beta] == sampler.betas after every iteration; '
                                   'end points fixed; strict order with the default infinite hottest temperature')
     chk.coverage['evaluations'] = chk.coverage.get('evaluations', 0) + st['configurations']
